@@ -242,6 +242,10 @@ def load_known(prop: str) -> list[dict]:
 
 
 def _run(cmd, cwd=None, timeout=900, env=None):
+    if cmd and cmd[0] in ('make', 'coqchk', 'ocamlfind'):
+        # large regenerated table literals need a deep stack in coqc
+        import shlex
+        cmd = ['bash', '-c', 'ulimit -s unlimited 2>/dev/null; exec ' + ' '.join(shlex.quote(c) for c in cmd)]
     try:
         r = subprocess.run(cmd, cwd=cwd, timeout=timeout, env=env,
                            stdout=subprocess.PIPE, stderr=subprocess.STDOUT, text=True)
